@@ -9,3 +9,15 @@ go build -tags verif -o /verif/bin/archesim ./cmd/archesim
 case "$1" in
   ""|all|C01|C09|C16) go build -tags "verif tiny" -o /verif/bin/archesim_tiny ./cmd/archesim;;
 esac
+case "$1" in
+  ""|all|C19) go build -race -tags verif -o /verif/bin/archesim_race ./cmd/archesim;;
+esac
+case "$1" in
+  ""|all|C14)
+    # newer toolchain: weak pointers give a synchronous liveness oracle for the release half of C14
+    GOTOOLCHAIN=local go1.26.8 build -tags verif -o /verif/bin/archesim_126 ./cmd/archesim
+    # without the verif tag: the library exactly as users build it (hook calls could perturb inlining / escape analysis)
+    go build -o /verif/bin/archesim_plain ./cmd/archesim
+    # the compiler's escape verdict for the call-site shapes, recorded as evidence
+    go build -tags verif -gcflags=-m . 2>&1 | grep 'shapes.go' | grep -v 'inline' > /verif/bin/escape_report.txt || true;;
+esac
